@@ -423,6 +423,11 @@ func (e *Engine) execAppend(fc *fnCtx, b *ssa.BasicBlock, st *State, c *ssa.Call
 	}
 	e.sc.assert(implies(st.Reach, "(forall ((j Int)) (! (=> (and (<= 0 j) (< j "+ln+")) (= (select "+narr+" (ix "+off+" j)) (select "+oarr+" (ix "+off+" j)))) :pattern ((select "+narr+" (ix "+off+" j)))))"))
 	e.sc.assert(implies(st.Reach, "(forall ((j Int)) (! (=> (and (<= "+ln+" j) (< j (+ "+ln+" "+tlen+"))) (= (select "+narr+" (ix "+off+" j)) "+elemAt+")) :pattern ((select "+narr+" (ix "+off+" j)))))"))
+	if !isStr {
+		// the same fact keyed by the source element, so that "the k-th appended element is in the result" finds its index
+		tarr := sel(H, "(s_ref "+t.T+")")
+		e.sc.assert(implies(st.Reach, "(forall ((k Int)) (! (=> (and (<= 0 k) (< k "+tlen+")) (= (select "+narr+" (ix "+off+" (+ "+ln+" k))) (select "+tarr+" (ix (s_off "+t.T+") k)))) :pattern ((select "+tarr+" (ix (s_off "+t.T+") k)))))"))
+	}
 	e.setHeapIn(st, hn, hs, store(H, nref, narr))
 	e.logStore(hn, nref)
 	e.note("append with non-constant operand: other elements of a shared backing array are not preserved (havoc)")
@@ -588,7 +593,12 @@ func (e *Engine) havocDesignator(env *SpecEnv, st *State, d SExpr) {
 		}
 		h := e.heapIn(st, loc.heap, loc.sort)
 		elemSort := strings.TrimSuffix(strings.TrimPrefix(loc.sort, "(Array Int "), ")")
-		e.setHeapIn(st, loc.heap, loc.sort, store(h, loc.ref, e.sc.declareConst("mod_"+loc.heap, elemSort)))
+		nh := store(h, loc.ref, e.sc.declareConst("mod_"+loc.heap, elemSort))
+		if strings.HasPrefix(loc.heap, "HS_") {
+			// the backing array of a nil slice (reference 0) does not exist: nothing is ever stored there
+			nh = ite("(= "+loc.ref+" 0)", h, nh)
+		}
+		e.setHeapIn(st, loc.heap, loc.sort, nh)
 	}
 }
 
